@@ -179,6 +179,17 @@ func c09WriterCases(c *ev.Ctx) []wcase {
 	big = append(big, gen.Data(r, "text", 3000)...)
 	out = append(out, wcase{ID: "lzma2big", Kind: "lzma2", Data: big, Parts: []int{1 << 20, 1 << 20, 1000, 2000}, Flush: map[int]bool{2: true},
 		L2: lzma.Writer2Config{DictCap: 65536}, Feat: "lzma2, chunk at the 2 MiB limit"})
+	// several blocks, each large enough for several chunks: chunks are written in the middle of
+	// Write calls, and Write calls (one for everything; pieces of 70000 bytes) cross block ends
+	for i, bs := range []int64{100000, 150000} {
+		d := append(gen.Data(r, "random", 230000), gen.Data(r, "text", 40000)...)
+		parts := []int{len(d)}
+		if i == 1 {
+			parts = []int{70000, 70000, 70000, len(d) - 210000}
+		}
+		out = append(out, wcase{ID: fmt.Sprintf("xzblocks%d", i), Kind: "xz", Data: d, Parts: parts,
+			XZ: xz.WriterConfig{DictCap: []int{4096, 65536}[i], BlockSize: bs, CheckSum: xz.CRC32}, Feat: fmt.Sprintf("xz, multi-chunk blocks of %d bytes, writes crossing block ends", bs)})
+	}
 	out = append(out, wcase{ID: "xzbig2m", Kind: "xz", Data: big, Parts: []int{1<<21 - 5, 5, 3000}, XZ: xz.WriterConfig{DictCap: 65536}, Feat: "xz, chunk at the 2 MiB limit"})
 	return out
 }
